@@ -53,7 +53,7 @@ func init() {
 		Plan: func(tier string, seed int64) *harness.Plan {
 			sys := newSysCases(tier)
 			return &harness.Plan{
-				N:     sys.n() + size(tier, 50000, 1000000),
+				N:     sys.n() + size(tier, 120000, 1500000),
 				Setup: func(c *harness.Ctx) { hooksOn() },
 				Run: func(c *harness.Ctx, k int) {
 					var d *diffCase
